@@ -111,6 +111,31 @@ theorem resolve_refines (k : Kind) (c : Cfg) (f : Fmt) (addr : Bytes) (ab base :
   rw [rawAll_encodeList k c f hs l rest hw]
   exact h1
 
+/-- the same through the public entry points `ranges` / `locations` / `locations_dwo` at the
+list's offset inside the section the unit's version and the file type select -/
+theorem resolve_refines_at (k : Kind) (c : Cfg) (dwo : Bool) (addr : Bytes) (ab base : Nat)
+    (hs : ValidSize c.addrSize) (hlen : addr.length < 2 ^ 64) (l : List Entry)
+    (pre rest other : Bytes) (hw : ∀ x ∈ l, WfEntry k c (sectionFormat k c.version dwo).2 x) :
+    let sec := pre ++ encodeList k c (sectionFormat k c.version dwo).2 l ++ rest
+    ∃ evs, cookedAt k c dwo (if (sectionFormat k c.version dwo).1 then sec else other)
+        (if (sectionFormat k c.version dwo).1 then other else sec) pre.length base addr ab = .ok evs ∧
+      evs.map denot = resolveList c.addrSize (tableOf c.endian c.addrSize addr ab) base l := by
+  intro sec
+  obtain ⟨evs, h1, h2⟩ := resolve_refines k c (sectionFormat k c.version dwo).2 addr ab base hs hlen l rest hw
+  refine ⟨evs, ?_, h2⟩
+  unfold cookedAt
+  have hsel : (if (sectionFormat k c.version dwo).1 = true then
+      (if (sectionFormat k c.version dwo).1 = true then sec else other)
+      else (if (sectionFormat k c.version dwo).1 = true then other else sec)) = sec := by
+    split <;> rfl
+  simp only [hsel]
+  have hl : ¬ sec.length < pre.length := by simp [sec]
+  rw [if_neg hl]
+  have : sec.drop pre.length = encodeList k c (sectionFormat k c.version dwo).2 l ++ rest := by
+    simp [sec, List.append_assoc]
+  rw [this]
+  exact h1
+
 /-! ## offset tables and the address table -/
 
 /-- **`get_offset base i`** (`DW_FORM_rnglistx` / `DW_FORM_loclistx`) is `base +` the word stored at
